@@ -57,6 +57,8 @@ def make_proxies(core, dp, np):
                        "do": [[i, o] for i, o in enumerate(orders) if i >= len(prev) or prev[i] != o],
                        "newtr": trades[min(nt0, len(trades)):], "audit": True})
             ev.setdefault("dt", 0)
+            if getattr(self, "_back", False):
+                ev["clock_was_moved_back"] = True
             self._ev.append(ev)
             self._prev, self._nt = orders, len(trades)
             feat("book_op_" + lbl["op"])
@@ -95,6 +97,10 @@ def make_proxies(core, dp, np):
                               lambda: self._b.modify_order(order_id, new_price=new_price, new_vol=new_vol))
 
         def set_time(self, t):
+            self._now = getattr(self, "_now", self._cfg["t0"])
+            if int(t) < self._now:
+                self._back = True
+            self._now = int(t)
             return self._call({"op": "settime", "t": int(t)}, lambda: self._b.set_time(t))
 
         def enable_trading(self):
